@@ -161,6 +161,7 @@ def check(run):
     _r12(run, prog)
     _r13(run, fams)
     _r14(run, mods)
+    _r15(run, fams, mods)
     from ..cachekey import check_caches
     check_caches(run, list(mods.values()) + [prog.modules['cherab.openadas.install']], 'C06-K', prog=prog)
 
@@ -349,6 +350,59 @@ def _r14(run, mods):
                              "%s rejects metastable indices with '%s'; the documented domain is index >= 0 ('cannot be less than zero'), so the guard "
                              "must reject exactly the negative ones" % (fname, norm(st.test)))
     run.floor('C06-R14', 2)
+
+
+
+# ------------------------------------------------------------------------------------------ R15
+def _r15(run, fams, mods):
+    """A writer creates the directory of the file it opens for writing: installing into a fresh repository (or a new element / ion
+    sub-directory) must not fail, and must not depend on an earlier install having created the directory."""
+    run.describe('C06-R15', "every writer that opens a repository file for writing creates its directory first (os.makedirs on every path to the open)")
+    allfns = {}
+    for mi in mods.values():
+        for n, f in mi.functions.items():
+            allfns.setdefault(n, []).append((f, mi))
+
+    def closure(fn, mod):
+        out, todo = [], [(fn, mod)]
+        while todo:
+            f, m = todo.pop()
+            if any(f is g for g in out):
+                continue
+            out.append(f)
+            for c in ast.walk(f):
+                if isinstance(c, ast.Call) and isinstance(c.func, ast.Name) and not c.func.id.startswith('get_'):
+                    if c.func.id in m.functions:
+                        todo.append((m.functions[c.func.id], m))
+                    elif len(allfns.get(c.func.id, [])) == 1:
+                        todo.append(allfns[c.func.id][0])
+        return out
+    seen = set()
+    for fm in fams:
+        fn = fm.fn['update']
+        if id(fn) in seen:
+            continue
+        seen.add(id(fn))
+        bodies = closure(fn, fm.mod)
+        opens = [c for b in bodies for c in ast.walk(b) if isinstance(c, ast.Call) and dotted(c.func) == 'open' and len(c.args) >= 2
+                 and isinstance(c.args[1], ast.Constant) and isinstance(c.args[1].value, str) and 'w' in c.args[1].value]
+        if not opens:
+            continue
+        run.subject('C06-R15')
+        mk = [c for b in bodies for c in ast.walk(b) if isinstance(c, ast.Call) and (dotted(c.func) or '').split('.')[-1] in ('makedirs', 'mkdir')]
+        unknown = [c for b in bodies for c in ast.walk(b) if isinstance(c, ast.Call) and isinstance(c.func, ast.Name) and c.func.id in fm.mod.imports
+                   and c.func.id not in fm.mod.functions and not len(allfns.get(c.func.id, [])) == 1 and 'repository' in str(fm.mod.imports[c.func.id])
+                   and c.func.id not in ('encode_transition', 'valid_charge')]
+        if mk:
+            # the directory created is the one of the path opened: makedirs(dirname(path)) / makedirs(directory) with directory = dirname(path)
+            run.ok('C06-R15', fn.name, 'creates %s before open(..., "w")' % norm(mk[0].args[0])[:40] if mk[0].args else 'makedirs')
+        elif unknown:
+            run.undecided('C06-R15', fn.name, 'no makedirs found, but helper(s) %s of the package are not resolved' % sorted({c.func.id for c in unknown}))
+        else:
+            run.fail('C06-R15', '%s|%s|no-makedirs' % (fm.mod.name, fn.name), fm.mod.relpath, opens[0].lineno,
+                     "%s opens '%s' for writing and nothing on the way creates its directory: in a repository that does not yet hold this "
+                     "element / ion directory the install fails with FileNotFoundError" % (fn.name, norm(opens[0].args[0])[:40]))
+    run.floor('C06-R15', 10)
 
 
 
